@@ -268,9 +268,9 @@ pub fn run(ctx: &Ctx) -> i32 {
         &outcome,
         EvidenceSpec {
             level: "translation_validation",
-            rule: "each generated definition (control-flow profile) is lifted with into_cfg; for 16 decision sequences (random bits with 8 different biases, loops forced to exit after 6 iterations in total) the generator AST is walked as structured code (for = init/cond/body/step, compound assignments and ++/-- as single substitutions, stop at the first return) and the graph is walked from block 0 taking true_index / false_index (or the only other successor) by the same decisions; the two statement sequences must agree step by step on source span, statement kind, assigned variable and the full expression structure. Non-trivial = a walk that takes at least one back edge and one false edge; distinct by (source, decision vector).",
+            rule: "each generated definition (control-flow profile) is lifted with into_cfg; for 16 decision sequences (random bits with 8 different biases, loops forced to exit after 6 iterations in total) the generator AST is walked as structured code (for = init/cond/body/step, compound assignments and ++/-- as single substitutions, stop at the first return) and the graph is walked from block 0 taking true_index / false_index (or the only other successor) by the same decisions; the two statement sequences must agree step by step on source span, statement kind, assigned variable and the full expression structure. In addition the step of every `for` must assign the very variable (name and uniquifying suffix) that the loop's condition reads, whatever the body declares. Non-trivial = a walk that takes at least one back edge and one false edge; distinct by (source, decision vector).",
             assumptions: vec![
-                "the walk compares the pre-SSA graph; names are compared without the uniquifying suffix (C10 checks suffixes)".into(),
+                "the walk compares the pre-SSA graph; names are compared without the uniquifying suffix (C10 checks suffixes), except for the counter of a `for` in its condition and step".into(),
                 "AST sequence must be a prefix of the CFG sequence (the graph may continue after a return)".into(),
             ],
             extra: json!({"programs": programs, "decision_sequences": seqs, "evaluations_are": "generated definitions; each is validated under 16 decision sequences"}),
